@@ -32,7 +32,7 @@ def sosfiltfilt_summary(it, a, k):
 
 def mk_converter(it, nshanks=2, fp_err=False):
     """NP2Converter on a symbolic NP2.4 recording: ns samples, napch AP channels + 1 sync, `nshanks` shanks with
-    symbolic, strictly increasing channel lists; parameters as set by the real init_params (taper 144, overlap 576, ratio 12)."""
+    symbolic, strictly increasing channel lists; parameters as set by the real init_params (taper 144, overlap 576, ratio 12: harness C03.init_params)."""
     ns, napch, W = z3.Ints("ns napch W")
     it.ctx.assume(z3.And(ns >= 2 * TAPER, napch >= 1, W > OVERLAP, W % RATIO == 0))
     nc = napch + 1
